@@ -139,6 +139,13 @@ def outOfDate (now : Int) : TrigKind → Bool
     | none => false
   | _ => false
 
+/-- `reset()`: `PeriodTrigger` / `PeriodsTrigger` forget their next due time(s), the other classes keep no state
+    (`Trigger.reset` is a no-op) -/
+def TrigKind.reset : TrigKind → TrigKind
+  | .period δ imm pend _ => .period δ imm pend none
+  | .periods δs imm pend _ => .periods δs imm pend none
+  | k => k
+
 /-- an installed trigger: position in `strategy.triggers` at installation, the extra keyword arguments
     (an opaque payload the harness serialises), the object -/
 structure Trig where
@@ -146,6 +153,8 @@ structure Trig where
   kw : String
   k : TrigKind
 deriving DecidableEq, Repr, Inhabited
+
+def Trig.reset (t : Trig) : Trig := { t with k := t.k.reset }
 
 /-- one call of the action: bar time, which trigger, the keyword arguments it received -/
 structure Fire where
